@@ -588,9 +588,17 @@ class Translator:
             retref = rett.endswith('&') or f.rettype.get('qualType', '').endswith('&')
             if f.kind == 'ctor' or rti[0] == 'void' or retref:
                 f.retmode = 'state'
+            elif getattr(Translator, 'retloc', False) and rti[0] == 'rec' and (
+                    (f.state == 'this' and rti[1] is f.rec) or (f.state != 'this' and rti[1] is self.typeinfo(params[f.state].get('ctype', params[f.state].get('type', {})))[1])):
+                # (C04, additive; --retloc) a mutating function that returns its mutated operand BY VALUE: the updated state is the
+                # value; the fact that the returned location is NOT the operand's is emitted as <name>__retloc := None
+                f.retmode = 'state'
+                f.retloc = 'value'
             else:
                 f.retmode = 'value_only'   # mutating function that returns a value: state change is lost -> unsupported
                 raise Unsupported('mutating function returning a value')
+            if getattr(Translator, 'retloc', False) and f.kind != 'ctor' and rti[0] == 'rec' and retref:
+                f.retloc = 'ref'
         else:
             f.retmode = 'value'
             if rti[0] not in ('scalar', 'rec'):
@@ -779,6 +787,12 @@ class Translator:
                 # (C06, soundness fix) 'return a = a * b;' / 'return a += b;': the returned expression has an effect on the
                 # state.  Unless it is a plain reference to the state (return *this; return a;) translate it as an
                 # effect first -- it used to be dropped silently.  Anything trans_effect cannot handle is Unsupported.
+                if e is not None and getattr(f, 'retloc', None) == 'value':
+                    # (C04, --retloc) 'return a;' by value: a copy construction of the mutated operand
+                    e2 = self.strip(e)
+                    args2 = [c for c in (e2.get('inner') or []) if 'kind' in c]
+                    if e2.get('kind') == 'CXXConstructExpr' and len(args2) == 1 and self.is_state_ref(args2[0], ctx):
+                        e = args2[0]
                 if e is not None and not self.is_state_ref(e, ctx):
                     pre, ctx2 = self.trans_effect(e, ctx)
                     return pre + self.state_value(ctx2)
@@ -1356,6 +1370,12 @@ class Translator:
                 lines.append('(* UNSUPPORTED %s: %s *)' % (f.coq, f.error.replace('*)', '* )')))
             else:
                 lines.append(f.text)
+                if getattr(f, 'retloc', None):
+                    # (C04, --retloc) which location the function returns: Some k = the location of its k-th operand (by reference),
+                    # None = a fresh object (by value)
+                    k = 0 if f.state == 'this' else f.state
+                    lines.append('')
+                    lines.append('Definition %s__retloc : option nat := %s.' % (f.coq, ('Some %d%%nat' % k) if f.retloc == 'ref' else 'None'))
             lines.append('')
         for f in sorted(self.funcs, key=lambda f: f.coq or ''):
             emit_fn(f)
@@ -1449,6 +1469,7 @@ def main():
     ap.add_argument('--json', default=None)
     ap.add_argument('--filter', default='rkcommon')
     ap.add_argument('--exact-literals', action='store_true', help='(C04) floating literals as exact dyadic rationals')
+    ap.add_argument('--retloc', action='store_true', help='(C04) emit <name>__retloc for mutating functions returning their operand')
     ap.add_argument('--filter2', default=None, help='(C04) filter of an additional AST dump of the same TU')
     ap.add_argument('--only', default=None, help='regex on generated names to keep')
     ap.add_argument('-D', action='append', default=[])
@@ -1461,6 +1482,8 @@ def main():
     docs = load_docs(js)
     if a.exact_literals:
         Translator.exact_literals = True
+    if a.retloc:
+        Translator.retloc = True
     if a.filter2:
         # (C04, additive) a second dump of the same TU with another filter (e.g. 'less' for the std::less<vec_t<..>>
         # specialisations, which live in namespace std and are not reached by the filter 'rkcommon').  Node ids of the two
